@@ -12,7 +12,10 @@ package main
 import (
 	"encoding/json"
 	"fmt"
+	"io"
 	"math/rand"
+	"net/http"
+	"net/http/httptest"
 	"net/url"
 	"os"
 	"os/exec"
@@ -87,16 +90,21 @@ func (t target) url() string {
 }
 
 type historyEnv struct {
-	root     string
-	drmPkgs  []string
-	alts     map[string][]string
-	cleanup  func()
-	prep     *lib.Livesim
-	segMS    map[string]int64
-	reps     map[string]map[string]*lib.TLRep
-	hasDRM   bool
-	kindList []string
-	pause    map[string]int // URL -> pause between servings in its fresh processes
+	root        string
+	drmPkgs     []string
+	alts        map[string][]string
+	cleanup     func()
+	prep        *lib.Livesim
+	segMS       map[string]int64
+	reps        map[string]map[string]*lib.TLRep
+	hasDRM      bool
+	kindList    []string
+	pause       map[string]int   // URL -> pause between servings in its fresh processes
+	sink        *httptest.Server // destination of CMAF-ingest sessions started through the REST API
+	sinkHits    atomic.Int64
+	sessionTime time.Duration
+	sessions    int
+	allSessions bool // thorough tier: an API session in front of every target
 }
 
 func serverMod(env *historyEnv) func(cfg *app.ServerConfig) {
@@ -112,7 +120,18 @@ func newHistoryEnv() (*historyEnv, error) {
 	if err != nil {
 		return nil, err
 	}
-	env := &historyEnv{root: root, cleanup: cleanup, segMS: map[string]int64{}, reps: map[string]map[string]*lib.TLRep{}, pause: map[string]int{}}
+	env := &historyEnv{root: root, segMS: map[string]int64{}, reps: map[string]map[string]*lib.TLRep{}, pause: map[string]int{}}
+	env.sink = httptest.NewServer(http.HandlerFunc(func(w http.ResponseWriter, r *http.Request) {
+		_, _ = io.Copy(io.Discard, r.Body)
+		env.sinkHits.Add(1)
+		w.WriteHeader(http.StatusOK)
+	}))
+	rmScratch := cleanup
+	env.cleanup = func() {
+		env.sink.Close()
+		rmScratch()
+	}
+	cleanup = env.cleanup
 	if err := os.CopyFS(filepath.Join(root, altAsset), os.DirFS(filepath.Join(lib.TestVodRoot, altAsset))); err != nil {
 		cleanup()
 		return nil, err
@@ -164,7 +183,7 @@ func newHistoryEnv() (*historyEnv, error) {
 		"timesubs":     {"", "timesubsstpp_en,sv/", "timesubswvtt_en/"},
 		"mode":         {"", "segtimeline_1/", "segtimelinenr_1/"},
 	}
-	env.kindList = []string{"session", "presentation", "protection", "chunk", "ato", "numbering", "fault", "periods", "timesubs", "mode", "time", "time-backwards", "instant-form", "error", "repeat", "sibling", "form"}
+	env.kindList = []string{"session", "presentation", "protection", "chunk", "ato", "numbering", "fault", "periods", "timesubs", "mode", "time", "time-backwards", "instant-form", "api-session", "error", "repeat", "sibling", "form"}
 	env.prep, err = lib.NewLivesim(root, serverMod(env))
 	if err != nil {
 		cleanup()
@@ -400,6 +419,21 @@ func (env *historyEnv) neighbours(t target, kind string) []string {
 		d := t.with("numbering", "tsbd_x/")
 		e := t.with("protection", "drm_nosuchpackage/")
 		out = append(out, a.url(), b.url(), c.url(), d.url(), e.url())
+	case "api-session": // the other entry points into the same code, on the same instance
+		x := t
+		x.Patch, x.Query, x.AsDate, x.Rest = false, "", false, "Manifest.mpd"
+		x = x.with("patch", "").with("chunk", "").with("fault", "").with("session", "")
+		// generated subtitles in the session - but not together with a SegmentTimeline mode: on the
+		// checked tree such a session dies with a nil dereference in the session goroutine
+		// (sendMediaSegments -> generateTimelineEntries("timestpp-…")) and takes the process with it
+		if x.Opts["mode"] != "" {
+			x = x.with("timesubs", "")
+		} else if x.Opts["timesubs"] == "" {
+			x = x.with("timesubs", []string{"timesubsstpp_en,sv/", "timesubswvtt_en/"}[len(t.Family)%2])
+		}
+		lu := x.url()
+		lu = lu[:strings.Index(lu, "?")]
+		out = append(out, fmt.Sprintf("api-session:%s|%d|%d", lu, t.NowMS, env.segMS[t.Asset]), "/reqcount", "/urlgen/create?asset="+t.Asset+"&mpd=Manifest.mpd", "/api/cmaf-ingests/1")
 	case "instant-form": // the same instant, given as a date
 		if !t.AsDate {
 			x := t
@@ -486,6 +520,59 @@ func (env *historyEnv) variants(t target) []target {
 	return out
 }
 
+// serveReq: a request of a history. "api-session:<livesim URL>|<nowMS>|<segment ms>" is not a GET
+// but a whole CMAF-ingest session through the REST API on the same instance (see apiSession).
+func (env *historyEnv) serveReq(ls *lib.Livesim, u string) proj {
+	if strings.HasPrefix(u, "api-session:") {
+		parts := strings.Split(strings.TrimPrefix(u, "api-session:"), "|")
+		var now, seg int64
+		fmt.Sscan(parts[1], &now)
+		fmt.Sscan(parts[2], &seg)
+		env.apiSession(ls, parts[0], now, seg)
+		return proj{}
+	}
+	return project(ls.Get(u))
+}
+
+// apiSession: POST /api/cmaf-ingests for the URL in step mode (testNowMS) with a duration of two
+// segments, the three steps that send its segments up to the last one, then DELETE. The same code
+// that answers HTTP requests produces the segments of the session.
+func (env *historyEnv) apiSession(ls *lib.Livesim, livesimURL string, nowMS, segMS int64) {
+	t0 := time.Now()
+	defer func() { env.sessionTime += time.Since(t0); env.sessions++ }()
+	body := fmt.Sprintf(`{"destRoot":%q,"destName":"c07","livesimURL":%q,"testNowMS":%d,"duration":%d}`, env.sink.URL, livesimURL, nowMS, 2*segMS/1000)
+	r := ls.Do("POST", "/api/cmaf-ingests", strings.NewReader(body), map[string]string{"Content-Type": "application/json"})
+	var cr struct {
+		ID string `json:"id"`
+	}
+	if r.Status/100 != 2 || json.Unmarshal(r.Body, &cr) != nil || cr.ID == "" {
+		return
+	}
+	for k := 0; k < 3; k++ {
+		stepped := make(chan struct{})
+		go func() {
+			_ = ls.Do("GET", "/api/cmaf-ingests/"+cr.ID+"/step", nil, nil)
+			close(stepped)
+		}()
+		select {
+		case <-stepped:
+		case <-time.After(300 * time.Millisecond): // a step blocks for ever when the session has ended early
+			k = 3
+		}
+	}
+	// the last segments are on their way: wait until the destination has been quiet for a moment
+	for i, last := 0, int64(-1); i < 50; i++ {
+		h := env.sinkHits.Load()
+		if h == last {
+			break
+		}
+		last = h
+		time.Sleep(10 * time.Millisecond)
+	}
+	_ = ls.Do("GET", "/api/cmaf-ingests/"+cr.ID, nil, nil)
+	_ = ls.Do("DELETE", "/api/cmaf-ingests/"+cr.ID, nil, nil)
+}
+
 type history struct {
 	Target target   `json:"target"`
 	Kind   string   `json:"neighbour_kind"`
@@ -498,6 +585,9 @@ func (env *historyEnv) histories(ts []target) []history {
 		for _, k := range env.kindList {
 			if strings.HasPrefix(t.Family, "error-") && k != "repeat" && k != "time" && k != "sibling" && k != "form" && k != "protection" && k != "instant-form" {
 				continue // refused requests: repeats, other instants, siblings, other forms, other protection
+			}
+			if k == "api-session" && !env.allSessions && !strings.Contains(t.Family, "subs") && !strings.Contains(t.Family, "stpp") && len(hs)%3 != 0 {
+				continue
 			}
 			nb := env.neighbours(t, k)
 			if len(nb) == 0 {
@@ -670,6 +760,7 @@ func runHistories(c *lib.Ctx) (int, error) {
 			ts = append(ts, env.targetsAlt(k*12000+phase)...)
 		}
 	}
+	env.allSessions = c.Thorough()
 	hs := env.histories(ts)
 	var urls []string
 	seen := map[string]bool{}
@@ -771,12 +862,13 @@ func runHistories(c *lib.Ctx) (int, error) {
 	for _, h := range hs {
 		var last proj
 		for _, u := range h.Reqs {
-			last = project(long.Get(u))
+			last = env.serveReq(long, u)
 			n++
 		}
 		check("sequential", h, last)
 		c.Count("history:" + h.Target.Family + ":" + h.Kind)
 	}
+	c.Res.Notes = append(c.Res.Notes, fmt.Sprintf("%d REST-API ingest sessions, %.1fs", env.sessions, env.sessionTime.Seconds()))
 	lap("sequential")
 	// concurrent: the same sequences from 8 goroutines on a second instance
 	long2, err := lib.NewLivesim(env.root, serverMod(env))
@@ -796,6 +888,9 @@ func runHistories(c *lib.Ctx) (int, error) {
 		go func() {
 			defer wg.Done()
 			for i := range next {
+				if hs[i].Kind == "api-session" {
+					continue // the REST API is not safe for concurrent use (finding c07-ingester-mgr-maps): sequential pass only
+				}
 				for _, u := range hs[i].Reqs {
 					got[i] = project(long2.Get(u))
 				}
@@ -804,6 +899,9 @@ func runHistories(c *lib.Ctx) (int, error) {
 	}
 	wg.Wait()
 	for i, h := range hs {
+		if h.Kind == "api-session" {
+			continue
+		}
 		check("8 goroutines", h, got[i])
 		n += len(h.Reqs)
 	}
@@ -927,7 +1025,7 @@ func replayHistory(c *lib.Ctx, in c07in) error {
 	var last proj
 	for round := 0; round < 3; round++ {
 		for _, u := range h.Reqs {
-			last = project(long.Get(u))
+			last = env.serveReq(long, u)
 		}
 		want := fresh[h.Target.url()]
 		fmt.Printf("replay C07: %s: long-lived %v, fresh %v\n", h.Target.url(), last, want)
